@@ -2,7 +2,7 @@
 # runs every claimed quick check in parallel and prints one summary line per property (regression check)
 cd /verif
 for p in $(python3 -c "import json;print(' '.join(c['property_id'] for c in json.load(open('MANIFEST.json'))['checks']))"); do
-  ( out=$(./bin/govc check --property $p 2>&1); rc=$?; echo "$p exit=$rc $(echo "$out" | tail -1 | cut -c1-160)"; echo "$out" | grep "^VIOLATION\|^ENGINE" | head -5 | cut -c1-220 ) &
+  ( out=$(./bin/govc check --property $p 2>&1); rc=$?; echo "$p exit=$rc $(echo "$out" | tail -1 | cut -c1-160)"; echo "$out" | grep "^VIOLATION\|^ENGINE\|^WARNING" | head -5 | cut -c1-220 ) &
   while [ $(jobs -r | wc -l) -ge 2 ]; do sleep 1; done
 done
 wait
